@@ -10,9 +10,11 @@ from . import lib
 def run(ctx):
     q = ctx.quick
     # 1. model check of the specification itself
-    cfg = "MC_Geometry" if q else "MC_Geometry_thorough"
-    r = lib.tlc("MC_Geometry", cfg=cfg, workers=lib.NCPU, timeout=2400, heap="16g")
-    ctx.mc_must_pass(r, "partition theorems T1-T6 (%s)" % cfg, "MC_Geometry")
+    # thorough: two families (N <= 12, R <= 3, TOF mashing <= 5) and (N <= 8, R <= 4, TOF mashing <= 3); the single
+    # (12, 4, 5) family needed > 40 min on a loaded machine
+    for cfg in (["MC_Geometry"] if q else ["MC_Geometry_thorough", "MC_Geometry_thorough2"]):
+        r = lib.tlc("MC_Geometry", cfg=cfg, workers=lib.NCPU if q else 8, timeout=2400, heap="12g")
+        ctx.mc_must_pass(r, "partition theorems T1-T7 (%s)" % cfg, "MC_Geometry")
     # 2. record
     exe = lib.build_driver("c01_geometry")
     traces = []
